@@ -7004,3 +7004,79 @@ func ruleGCUnits(c *Ctx) {
 	c.Floor("functions doing period/page arithmetic", len(scope), 4)
 	c.Floor("comparisons with known units on both sides", nCmp, 3)
 }
+
+// atomicStage (stage-machine, C02/C20): the store behind bc.dao is flushed by a timer that asks nobody; two Puts
+// made to it directly can end up in different flushes, and a crash between them leaves half a stage on disk (the
+// swapped storage prefix without the stage marker that says so: the resumed stage swaps it back). A stage clause of
+// the jump or the reset that writes more than one thing makes its writes in a private layer and merges that layer
+// once (Persist of a private layer is one PutChangeSet under the store's lock); at most one direct write to bc.dao
+// per clause - the marker of a stage that has nothing else to record.
+func atomicStage(c *Ctx) {
+	for _, name := range []string{"jumpToStateInternal", "resetStateInternal"} {
+		fd := c.P.Func("pkg/core", "Blockchain", name)
+		if fd == nil {
+			c.Lost("atomic-stage."+name+".anchor", name+" not found")
+			continue
+		}
+		f := c.P.NewFuncCFG(fd)
+		info := f.Info
+		recv := info.ObjectOf(fd.Decl.Recv.List[0].Names[0])
+		n := 0
+		ast.Inspect(fd.Decl.Body, func(x ast.Node) bool {
+			cc, ok := x.(*ast.CaseClause)
+			if !ok {
+				return true
+			}
+			label := "default"
+			if len(cc.List) > 0 {
+				label = types.ExprString(cc.List[0])
+			}
+			if len(cc.List) == 0 {
+				return true
+			}
+			if tv := info.Types[cc.List[0]]; tv.Type == nil || !namedTypeIs(tv.Type, "pkg/core", "stateChangeStage") {
+				return true
+			}
+			n++
+			var direct []string
+			for _, st := range cc.Body {
+				ast.Inspect(st, func(y ast.Node) bool {
+					if _, isLit := y.(*ast.FuncLit); isLit {
+						return false
+					}
+					call, ok := y.(*ast.CallExpr)
+					if !ok {
+						return true
+					}
+					sel, ok := call.Fun.(*ast.SelectorExpr)
+					if !ok {
+						return true
+					}
+					nm := sel.Sel.Name
+					if !(strings.HasPrefix(nm, "Put") || strings.HasPrefix(nm, "Delete") || strings.HasPrefix(nm, "Store")) || nm == "Store" {
+						return true
+					}
+					// receiver chain: bc.dao or bc.dao.Store
+					x := ast.Unparen(sel.X)
+					if s2, ok := x.(*ast.SelectorExpr); ok && s2.Sel.Name == "Store" {
+						x = ast.Unparen(s2.X)
+					}
+					if s3, ok := x.(*ast.SelectorExpr); ok && s3.Sel.Name == "dao" {
+						if id, ok := ast.Unparen(s3.X).(*ast.Ident); ok && info.ObjectOf(id) == recv {
+							direct = append(direct, fmt.Sprintf("%s at %s", types.ExprString(call.Fun), c.P.Pos(call.Pos())))
+						}
+					}
+					return true
+				})
+			}
+			key := fmt.Sprintf("atomic-stage.%s.%s", name, label)
+			if len(direct) <= 1 {
+				c.OK(key, c.P.Pos(cc.Pos()), fmt.Sprintf("%d direct write(s) to the shared DAO in this stage", len(direct)))
+			} else {
+				c.Fail(key, c.P.Pos(cc.Pos()), fmt.Sprintf("stage %s of %s makes %d separate writes to the shared DAO (%s): the timer flush can put them into different batches, and a crash in between leaves half of the stage on disk - the resumed stage repeats what was already done (the storage prefix is swapped back)", label, name, len(direct), strings.Join(direct, "; ")))
+			}
+			return true
+		})
+		c.Floor("stage clauses of "+name, n, 3)
+	}
+}
